@@ -41,6 +41,12 @@ REQUIRED_THEOREMS = [
     "kron_row_spec",
     "weighted_data_entry",
     "unweighted_data",
+    "residual_positions_bijective_unlinked",
+    "residual_entry_unlinked_spec",
+    "aligned_axis_strictly_increasing",
+    "residual_positions_bijective_linked",
+    "residual_entry_linked_spec",
+    "full_model_kron",
 ]
 TRUSTED = [
     "hand-written model lean/GlotaranModel/C02.lean (+LinAlg.lean) of optimization/{matrix,estimation,data}_provider.py, "
